@@ -295,6 +295,28 @@ func suiteC08(rng *Rng, thorough bool, s *Sink) {
 				}
 			}
 		}
+		// every value of every single byte of a complete record (zero and all-ones context): never a panic,
+		// never "too short"
+		for pos := 0; pos < d.n; pos++ {
+			if !thorough && pos > 1 && pos != d.n-1 {
+				continue
+			}
+			for ctx := 0; ctx < 2; ctx++ {
+				for b := 0; b < 256; b++ {
+					rec := make([]byte, d.n+ctx*2)
+					if ctx == 1 {
+						for i := range rec {
+							rec[i] = 0xFF
+						}
+					}
+					rec[pos] = byte(b)
+					out := emitBle(s, d, d.name+"-byte-sweep", rec, nil)
+					if out == "PANIC" || out == "err:too-short" {
+						s.Violate(fmt.Sprintf("BD %s %s -", d.name, HEX(rec)), out, fmt.Sprintf("%s on a complete %d-byte record with byte %d = 0x%02X: %s", d.name, len(rec), pos, b, out))
+					}
+				}
+			}
+		}
 		// every suffix length 1..16 appended to a complete record: the result must not change
 		nrec := 12
 		if thorough {
